@@ -612,8 +612,8 @@ def report():
                  "survivor and a deterministic sample of those recorded as detected were run again with the new check (`--recheck`, "
                  "`VERIF_NO_ESCALATE=1`, current corpus); the tables above show the NEW outcome. (The first pass already ran every worker from a private "
                  "copy of the checkout, so its verdicts were not affected by the shared build/<PID>/ directory; the re-run confirms that.)\n")
-        L.append("| property | survivors re-run | still survive | now detected (GAP closed by its corpus line) | now detected (other) | detected re-run (sample) | still detected | now survive |")
-        L.append("|---|---|---|---|---|---|---|---|")
+        L.append("| property | survivors re-run | still survive | now detected (GAP closed by its corpus line) | now detected (other) | detected re-run (sample) | still detected | now survive | survivors NOT re-run (pass-1 verdict kept) |")
+        L.append("|---|---|---|---|---|---|---|---|---|")
         flips = []
         for pid in sorted(res):
             mine = [r for p_, r in rr if p_ == pid]
@@ -625,7 +625,8 @@ def report():
             gapc = sum(1 for r in ps if r["outcome"].startswith("detected") and tclass(pid, r) == "GAP")
             oth = [r for r in ps if r["outcome"] != "survived" and not (r["outcome"].startswith("detected") and tclass(pid, r) == "GAP")]
             lost = [r for r in pd if not r["outcome"].startswith("detected")]
-            L.append("| %s | %d | %d | %d | %d | %d | %d | %d |" % (pid, len(ps), still, gapc, len(oth), len(pd), len(pd) - len(lost), len(lost)))
+            notrerun = sum(1 for r in res[pid][1] if r["outcome"] == "survived" and not r.get("previous_outcome"))
+            L.append("| %s | %d | %d | %d | %d | %d | %d | %d | %d |" % (pid, len(ps), still, gapc, len(oth), len(pd), len(pd) - len(lost), len(lost), notrerun))
             flips += [(pid, r) for r in oth + lost]
         L.append("")
         if flips:
